@@ -135,6 +135,9 @@ pub fn run(ctx: &Ctx) -> Result<Report, String> {
     let (depth, cap) = ctx.tier.pick((8, 10), (12, 14));
     let q = super::ioqueue::explore(ctx, depth, cap, &viol, &samples);
     let merged = run_terminal(ctx, Focus::C16, "C16")?;
+    // hooks-inert conformance pass on the real kernel (in a child process: it changes TERM and
+    // plays with signals); samples the kernel's schedules, decides nothing
+    let conf = conformance_in_child();
     let c = |k: &str| merged.counters.get(k).copied().unwrap_or(0);
     let mut r = Report::new("model_checking");
     let mut s = samples.into_vec();
@@ -148,6 +151,7 @@ pub fn run(ctx: &Ctx) -> Result<Report, String> {
         .set("terminal_schedules_explored", c("executions"))
         .set("terminal_counters", json!(merged.counters))
         .set("terminal_units", json!(merged.notes.get("unit").cloned().unwrap_or_default()))
+        .set("conformance_real_pty", conf.clone())
         .set("exhaustive", !q.capped && !merged.capped && c("capped_units") == 0)
         .set("capped", q.capped || merged.capped || c("capped_units") > 0)
         .set("samples", s);
@@ -155,14 +159,59 @@ pub fn run(ctx: &Ctx) -> Result<Report, String> {
     r.assume("the peer answers the DA1 query as soon as it has received it; TERM=dumb (no capability probing)");
     r.assume("encoding of commands is taken from the library's encoder (C05 judges it); here only transport is judged");
     viol.extend(merged.violations);
+    if let Some(ps) = conf["problems"].as_array() {
+        for p in ps {
+            viol.add(
+                p[0].as_str().unwrap_or("conformance").to_string(),
+                p[1].as_str().unwrap_or("").to_string(),
+                json!({"kind": "conformance"}),
+            );
+        }
+    }
     r.violations = viol.into_vec();
     Ok(r)
+}
+
+/// run the conformance pass in a child process and return its JSON summary
+fn conformance_in_child() -> Value {
+    let exe = match std::env::current_exe() {
+        Ok(e) => e,
+        Err(e) => return json!({"skipped": format!("{e}")}),
+    };
+    match std::process::Command::new(exe).arg("C16").arg("--conformance").output() {
+        Ok(out) => {
+            let text = String::from_utf8_lossy(&out.stdout);
+            for line in text.lines() {
+                if let Some(rest) = line.strip_prefix("CONFORMANCE ") {
+                    if let Ok(v) = serde_json::from_str::<Value>(rest) {
+                        return v;
+                    }
+                }
+            }
+            json!({"skipped": format!("child produced no summary (status {})", out.status)})
+        }
+        Err(e) => json!({"skipped": format!("{e}")}),
+    }
+}
+
+pub fn conformance_main() {
+    match tc::conformance_pass() {
+        Ok((runs, problems)) => {
+            let ps: Vec<Value> = problems.iter().map(|(k, w)| json!([k, w])).collect();
+            println!("CONFORMANCE {}", json!({"runs": runs, "problems": ps}));
+        }
+        Err(e) => println!("CONFORMANCE {}", json!({"skipped": e})),
+    }
 }
 
 pub fn replay(w: &Value) -> Result<(bool, String), String> {
     match w["kind"].as_str() {
         Some("ioqueue") => super::ioqueue::replay(w),
         Some("session") => tc::replay_session(w),
+        Some("conformance") => {
+            let (runs, problems) = tc::conformance_pass()?;
+            Ok((!problems.is_empty(), format!("{runs} real-pty runs: {:?}", problems)))
+        }
         Some("session-unit") => {
             // re-explore the unit (used to confirm a worker death)
             tc::prepare_process();
